@@ -22,7 +22,12 @@ RULE = ("one evaluation = one observed result object (array, 0-d array or quanti
         "its dtype rule, and the RuntimeWarning rule.  distinct cell = (sub-monitor, route or ufunc/form, input dtype(s), unit "
         "pair, container form) with at least one non-zero, non-identity value.  History batches: one evaluation = one such "
         "result observed in a process whose FIRST conversion of that ordered unit pair was made with a named dtype through a named "
-        "route (the first conversion is itself judged); distinct cell = (history, first dtype, first route) + the cell above")
+        "route (the first conversion is itself judged); distinct cell = (history, first dtype, first route) + the cell above.  "
+        "Caller-owned buffers (batches outbuf/<dtype>): one call of a mixed-unit binary ufunc with out= a bare ndarray or a unyt "
+        "buffer of any integer/float/complex width - by keyword, as 1-tuple or positionally; plain, where=-masked, ufunc.outer, "
+        "strided or 0-d - gives TWO evaluations, the returned object and the caller's buffer, each owed float dtype of the "
+        "buffer's item size and the exact values (masked-out elements: the number held before); a refusal is one evaluation; "
+        "where= without out= judges the addressed elements only; ufunc.at judges the first operand afterwards")
 ASSUMPTIONS = (
     "trusted base: NumPy casting/promotion, Python Fraction arithmetic, vf/ref/defs.py exact unit definitions, "
     "vf/ref/names.py name resolution; the unit *label* of a result is read from str(result.units) and interpreted by the reference",
@@ -70,6 +75,26 @@ ASSUMPTIONS = (
     "mixed-unit add, floor_divide and Unit.get_conversion_factor(other, dtype) (a public call that is only a driver, its return "
     "value is not judged); base routes start a history only on pairs whose destination is the mks base equivalent, binary "
     "ufuncs only on pairs without offset/EM units; equivalence routes have no per-pair factor and are not part of histories",
+    "caller-owned out= buffers: the rule for a buffer is the rule for in-place conversion of data of the buffer's dtype - both the "
+    "returned object and the buffer end as float of max(2, buffer itemsize) (complex buffers stay complex) holding the exact "
+    "values at K=16 ulp of the operands' own formats and the buffer's format; a raise is accepted for 8-bit integer buffers (no "
+    "float8) and for a *bare* integer ndarray of any width (the buffer belongs to the caller: refusing to retype it is the other "
+    "outcome the property licenses; note refused:plain-int-buffer), not for unyt buffers of >= 16 bits nor for float buffers; "
+    "NumPy's own refusal to store a complex result in a real buffer is a note",
+    "elements masked out by where= (or not addressed by ufunc.at) still owe the number the buffer held before, as a float of the "
+    "buffer's new type (an integer buffer is retyped as a whole): key ...:unaddressed-element:changed; when the new content is the "
+    "old one times the quotient's dimensionless unit factor the key is C17:true_divide/out:unaddressed-element:scaled-by-unit-factor "
+    "(one mechanism whatever dtypes/buffer); with where= and no out= the unaddressed elements are uninitialised and not judged",
+    "a buffer wider than both operands: NumPy evaluates in the promoted float type of the operands (int8 with float16 -> float16) "
+    "and stores afterwards; inf for a result beyond that narrower type's range is NumPy's promotion, not unyt's (counter "
+    "outbuf:overflow-in-numpy-loop-type); for true_divide the raw quotient formed in that type before unyt's unit factor is the "
+    "known raw-quotient-out-of-float-range mechanism",
+    "known mechanisms of the second operand's rescaling (int-exceeds-float-max, factor-outside-float-range, raw-quotient-...) keep "
+    "their binary/out and true_divide/out keys whoever owns the buffer (same code path); ordinary failures through caller-owned "
+    "buffers are keyed <ufunc>/out-nd[-buffer] (bare ndarray) and <ufunc>/out-un[-buffer] (unyt buffer), dtype failures by buffer class",
+    "ufunc.at on unit-carrying data is not implemented by unyt (RuntimeError: three inputs): a refusal cannot truncate and is "
+    "recorded as note refused:ufunc.at; if it ever returns, the first operand is judged like an out= buffer of its own dtype; "
+    "ufunc.outer accepts out= by keyword/tuple only (NumPy signature)",
     "true_divide whose dimensionless unit factor (J/erg) is not a normal number of the narrow float holding the quotient is the "
     "factor-outside-float-range mechanism (keyed like the conversion routes), not a plain value failure",
 )
@@ -544,6 +569,7 @@ def batches(tier, seed):
         b.append((f"base/{dt}", ("base", dt, tier, seed)))
         b.append((f"equiv/{dt}", ("equiv", dt, tier, seed)))
         b.append((f"binary/{dt}", ("binary", dt, tier, seed)))
+        b.append((f"outbuf/{dt}", ("outbuf", dt, tier, seed)))
     if tier == "thorough":
         # extra derived random streams (the batch id seeds the generator) for the parts with random values
         for k in (1, 2):
@@ -574,6 +600,8 @@ def worker(batch, rec):
             run_conversions(unyt, rec, kind, arg, tier, r)
         elif kind == "binary":
             run_binary(unyt, rec, arg, tier, r)
+        elif kind == "outbuf":
+            run_outforms(unyt, rec, arg, tier, r)
         elif kind == "warn":
             run_warn(unyt, rec, arg, tier, r)
         elif kind == "hist":
@@ -1012,43 +1040,63 @@ def do_binary(unyt, rec, ufname, form, d0, d1, u0, u1, av, bv, A, B, s0, s1, K):
         rec.violation(f"C17:{ufname}/{fclass}:raises:{c0}+{c1}:{type(exc).__name__}", f"np.{ufname} ({form}) of {d0} {u0} and {d1} {u1} raised "
                       f"{type(exc).__name__}: {str(exc)[:120]}", case)
         return
+    # unit label of the result, interpreted by the reference
+    label = str(res.units) if hasattr(res, "units") else ""
+    judge_binary(rec, ufname, form, fclass, d0, d1, u0, u1, av, bv, A, B, s0, s1, K, idx, res, label, ws)
+
+
+def judge_binary(rec, ufname, form, fclass, d0, d1, u0, u1, av, bv, A, B, s0, s1, K, idx, res, label, ws,
+                 bufdt=None, kclass=None, ctr="evals:binary", what=""):
+    """dtype rule and values of one observed result of a mixed-unit binary ufunc.  idx: per result element (i, j) = operand
+    pair, None = not judged (element left uninitialised by where= without out=), or ("keep", reading, scale|None) = element
+    masked out / not addressed: the buffer's earlier number must still be there (as a float).  bufdt: dtype the out= buffer
+    had before the call (default: the first operand's); kclass: form class used in ordinary keys (default fclass).
+    -> True when everything held"""
+    uf = getattr(np, ufname)
+    kk0, kk1 = np.dtype(d0), np.dtype(d1)
+    c0, c1 = cls_of(d0), cls_of(d1)
+    kclass = kclass or fclass
+    case = {"ufunc": ufname, "form": form, "d0": d0, "d1": d1, "u0": u0, "u1": u1}
+    if bufdt is not None:
+        case["buffer"] = str(bufdt)
     rdt, rvals = flat(res)
     if rdt is None:
         rdt = np.asarray(res).dtype
-    # unit label of the result, interpreted by the reference
-    label = str(res.units) if hasattr(res, "units") else ""
     try:
         sout, oo = X.unit_exact(label)
     except X.Unparsed:
         rec.note(f"unit-label-not-interpreted:{label}")
-        return
-    rec.count("evals:binary")
+        return False
+    rec.count(ctr)
     cplx_in = "c" in (kk0.kind, kk1.kind)
     # ---- dtype rule
     if ufname in COMPARE:
         if rdt.kind != "b":
-            rec.violation(f"C17:{ufname}/{fclass}:dtype:{c0}+{c1}->{rdt.name}", f"np.{ufname} ({form}) returned dtype {rdt}", case)
-            return
+            rec.violation(f"C17:{ufname}/{kclass}:dtype:{c0}+{c1}->{rdt.name}", f"np.{ufname} ({form}) returned dtype {rdt}", case)
+            return False
     else:
         if rdt.kind in "iub":
-            rec.violation(f"C17:{ufname}/{fclass}:int-result:{c0}+{c1}", f"np.{ufname} ({form}) of {d0} {av[:4]} {u0} and {d1} {bv[:4]} {u1} returned integer "
-                          f"dtype {rdt}: {rvals[:4]} {label}", case)
-            return
+            # through a caller-owned buffer the integer result is decided by the buffer, not by the operand pair
+            ikey = f"{c0}+{c1}" if bufdt is None else "buf-" + cls_of(bufdt)
+            rec.violation(f"C17:{ufname}/{kclass}:int-result:{ikey}", f"np.{ufname} ({form}) of {d0} {av[:4]} {u0} and {d1} {bv[:4]} {u1} returned integer "
+                          f"dtype {rdt}{what}: {rvals[:4]} {label}", case)
+            return False
         if cplx_in and rdt.kind != "c":
-            rec.violation(f"C17:{ufname}/{fclass}:complex-lost:{c0}+{c1}", f"np.{ufname} ({form}) of {d0} and {d1} returned {rdt}", case)
-            return
+            rec.violation(f"C17:{ufname}/{kclass}:complex-lost:{c0}+{c1}", f"np.{ufname} ({form}) of {d0} and {d1} returned {rdt}", case)
+            return False
         need = max(comp_size(kk0), comp_size(kk1))
         if fclass == "out":
-            want_buf = expected_conv_dtype(d0)
+            want_buf = expected_conv_dtype(bufdt if bufdt is not None else d0)
             if not same_dtype(rdt, want_buf):
-                rec.violation(f"C17:{ufname}/out:dtype:{c0}+{c1}->{rdt.newbyteorder('=').name}", f"np.{ufname} ({form}) into a {d0} buffer left dtype {rdt}; "
-                              f"the float of the buffer's item size is {want_buf}", case)
-                return
+                dkey = f"{c0}+{c1}" if bufdt is None else "buf-" + cls_of(bufdt)
+                rec.violation(f"C17:{ufname}/{kclass}:dtype:{dkey}->{rdt.newbyteorder('=').name}", f"np.{ufname} ({form}) into a "
+                              f"{bufdt if bufdt is not None else d0} buffer left dtype {rdt}{what}; the float of the buffer's item size is {want_buf}", case)
+                return False
         elif comp_size(rdt) < need or (kk0.kind in "fc" and kk1.kind in "fc" and comp_size(rdt) != need):
             opc = f"width{8 * need}" if (kk0.kind in "fc" and kk1.kind in "fc") else f"{c0}+{c1}"
             rec.violation(f"C17:{ufname}/{fclass}:dtype:{opc}->{rdt.newbyteorder('=').name}", f"np.{ufname} ({form}) of {d0} and {d1} returned {rdt}; "
                           f"component width must be {'=' if kk0.kind in 'fc' and kk1.kind in 'fc' else '>='} {need} bytes", case)
-            return
+            return False
     # ---- values
     def fmt(k):
         return X.BY_SIZE[min(8, comp_size(k))]
@@ -1059,10 +1107,29 @@ def do_binary(unyt, rec, ufname, form, d0, d1, u0, u1, av, bv, A, B, s0, s1, K):
     converts = ufname not in ("true_divide",)       # true_divide rescales the quotient, not an operand
     degree1 = ufname in ("add", "subtract", "maximum", "minimum", "fmax", "fmin", "hypot", "remainder", "fmod")
     if len(rvals) != len(idx):
-        rec.violation(f"C17:{ufname}/{fclass}:shape:{c0}+{c1}", f"np.{ufname} ({form}) returned {len(rvals)} elements for {len(idx)} operand pairs", case)
-        return
+        rec.violation(f"C17:{ufname}/{kclass}:shape:{c0}+{c1}", f"np.{ufname} ({form}) returned {len(rvals)} elements for {len(idx)} operand pairs", case)
+        return False
     judged = 0
-    for (i, j), g in zip(idx, rvals):
+    for ent, g in zip(idx, rvals):
+        if ent is None:
+            continue                                 # where= without out=: NumPy leaves the element uninitialised
+        if ent[0] == "keep":
+            # masked out / not addressed: the number the buffer held before is still owed (now as a float)
+            want = Fr(ent[1]) * (ent[2] / sout if ent[2] is not None else 1)
+            gk = g.real if isinstance(g, complex) and g.imag == 0 else g
+            if isinstance(gk, complex) or X.judge(float(gk), want, Fres, K) is not None:
+                fac = s0 / s1 / sout                  # the dimensionless factor of the two units (quotient forms)
+                if (ufname == "true_divide" and fac != 1 and not isinstance(gk, complex)
+                        and X.judge(float(gk), want * fac, Fres, K, tol=K * (Fres.eps + F1.eps) * abs(want * fac)) is None):
+                    # one mechanism whatever the dtypes and the buffer: the quotient's unit factor is applied to the whole buffer
+                    key = f"C17:{ufname}/out:unaddressed-element:scaled-by-unit-factor"
+                else:
+                    key = f"C17:{ufname}/{kclass}:unaddressed-element:changed:{c0}+{c1}"
+                rec.violation(key, f"np.{ufname} ({form}) of {d0} {u0} and {d1} {u1}{what}: "
+                              f"an element the call did not address held {show(want)} before and holds {g!r} ({rdt}) afterwards", case)
+                return False
+            continue
+        i, j = ent
         ex = bin_expected(ufname, A[i], B[j])
         tag = ex[0]
         if tag == "skip":
@@ -1164,13 +1231,24 @@ def do_binary(unyt, rec, ufname, form, d0, d1, u0, u1, av, bv, A, B, s0, s1, K):
             if alt_ok:
                 rec.count("binary:operand-overflows-own-float-width(IEEE-consistent)")
                 fail = None
+        if fail == "inf" and fclass == "out" and bufdt is not None and ufname != "true_divide":
+            # a caller's buffer wider than both operands: NumPy evaluates in the promoted float type of the operands (int8 with
+            # float16 -> float16) and stores afterwards; a result beyond *that* type's range is inf by NumPy's promotion rule
+            k1f = np.result_type(kk1, np.float16) if ufname == "floor_divide" else (np.dtype("f%d" % comp_size(kk1)) if kk1.kind in "iu" else kk1)
+            Floop = fmt(np.result_type(kk0, k1f))
+            sv = shown[0] if isinstance(shown, tuple) else shown
+            if Floop.nmant < Fres.nmant and isinstance(sv, Fr) and abs(sv) * (sout / s0 if degree1 else 1) >= Floop.max - K * X.ulp(Floop.max, Floop):
+                rec.count("outbuf:overflow-in-numpy-loop-type(narrower-than-buffer)")
+                fail = None
         if fail:
-            key = f"C17:{ufname}/{fclass}:{fail}:{c0}+{c1}"
+            key = f"C17:{ufname}/{kclass}:{fail}:{c0}+{c1}"
             raw_b = abs(as_fr(bv[j])[0]) if not isinstance(bv[j], complex) else None
             raw_q = None
             if ufname == "true_divide" and real_case and B[j][0] != 0:
                 raw_q = abs(Fr(av[i]) / Fr(bv[j]))
-                Fq = Fres if fclass == "out" else fmt(np.result_type(kk0, kk1, np.float16))
+                Fq = fmt(np.result_type(kk0, kk1, np.float16))          # float type NumPy forms the raw quotient in
+                if fclass == "out" and Fres.nmant < Fq.nmant:
+                    Fq = Fres                                           # ... and the buffer it is stored in before the factor
             if kk1.kind in "iu" and converts and raw_b is not None and raw_b > F1.max + X.ulp(F1.max, F1) / 2:
                 # the integer is cast to the float of its item size *before* scaling although the scaled value fits
                 key = f"C17:binary/{fclass}:int-exceeds-float-max:{c1}"
@@ -1184,16 +1262,207 @@ def do_binary(unyt, rec, ufname, form, d0, d1, u0, u1, av, bv, A, B, s0, s1, K):
                 # narrow float the quotient is held in: same mechanism as the conversion routes' factor-outside-float-range
                 key = f"C17:true_divide/{fclass}:factor-outside-float-range:float{8 * int(Fq.name[1:])}"
             rec.violation(key, f"np.{ufname} ({form}) of {av[i]!r} {u0} ({d0}) and {bv[j]!r} {u1} ({d1}) gave {g!r} {label} "
-                          f"({rdt}); exact: {show(shown) if not isinstance(shown, bool) else shown}", case)
-            return
+                          f"({rdt}){what}; exact: {show(shown) if not isinstance(shown, bool) else shown}", case)
+            return False
     if judged:
-        rec.ok(("binary", ufname, form, d0, d1, u0, u1))
-        rec.count(f"evals:binary:{fclass}")
+        rec.ok(("binary", ufname, form, d0, d1, u0, u1) + ((what,) if what else ()))
+        rec.count(f"{ctr}:{fclass}")
     # ---- warning clause for binary: recorded, not judged (see ASSUMPTIONS)
     if kk1.kind in "iu" and rdt.kind in "fc":
         fiw = finfo_for(rdt)
         if any(not X.int_representable(v, fiw) for v in bv) and not any(c == "RuntimeWarning" for (c, m) in ws):
             rec.note("not-judged:binary:no-warning-for-unrepresentable-int")
+    return True
+
+
+# ------------------------------------------------------------------ rarely used call forms: caller-owned out= buffers
+# The binary matrix above writes into a unyt buffer of the first operand's dtype, passed as out=<buffer>.  NumPy offers the
+# same call in more shapes, and the buffer does not have to be a unyt_array nor match an operand: a bare ndarray of any
+# integer width, a bare float ndarray of another width, a unyt buffer of another integer width; given by keyword, as a
+# 1-tuple, or positionally; with a where= mask; through ufunc.outer; strided or 0-d buffers; ufunc.at on the first operand.
+# Whatever the form, BOTH the returned object and the caller's buffer owe the exactly combined values in the float of the
+# buffer's item size - or the call raises.
+OUT_UFS = [u for u in UF_QUICK + UF_MORE if u not in COMPARE]
+OUT_PASS = ("kw", "tuple", "pos")
+OUT_VARIANTS = ("plain", "where", "plain", "outer", "strided", "0d", "plain")     # cycled (period 7, coprime to 3 and 8)
+OUT_BUF_DT = INTS + FLOATS
+OUT_HOLDERS = ("nd", "un")               # bare numpy.ndarray / unyt_array labelled with an unrelated unit
+
+
+def buf_kind(holder, bdt):
+    return holder + "-" + {"i": "int", "u": "int", "f": "float", "c": "complex"}[np.dtype(bdt).kind]
+
+
+def do_outform(unyt, rec, ufname, holder, bdt, how, variant, d0, d1, u0, u1, av, bv, A, B, s0, s1, K):
+    uf = getattr(np, ufname)
+    n = len(av)
+    kb = np.dtype(bdt)
+    a = unyt.unyt_array(make_array(d0, av), u0)
+    b = unyt.unyt_array(make_array(d1, bv), u1)
+    call, shape = uf, (n,)
+    idx = [(i, i) for i in range(n)]
+    if variant == "outer":
+        call, shape = uf.outer, (n, n)
+        idx = [(i, j) for i in range(n) for j in range(n)]
+        how = "kw" if how == "pos" else how          # ufunc.outer takes exactly two positional arguments
+    elif variant == "0d":
+        a = unyt.unyt_quantity(make_array(d0, av)[1], u0)
+        b = unyt.unyt_quantity(make_array(d1, bv)[2], u1)
+        shape, idx = (), [(1, 2)]
+    size = 1
+    for m in shape:
+        size *= m
+    prior = [3 + (k % 5) for k in range(size)]                      # what the caller's buffer holds before the call
+    if variant == "strided":
+        base = np.zeros(2 * n, dtype=kb)
+        base[::2] = prior
+        if holder == "un":
+            base = unyt.unyt_array(base, "s")
+        o = base[::2]
+    else:
+        o = np.array(prior, dtype=kb).reshape(shape)
+        if holder == "un":
+            o = unyt.unyt_array(o, "s")
+    kwargs = {}
+    if variant == "where":
+        mask = [k % 3 != 1 for k in range(n)]
+        kwargs["where"] = np.array(mask)
+        idx = [e if m else ("keep", prior[k], None) for k, (e, m) in enumerate(zip(idx, mask))]
+    if how == "kw":
+        fn = lambda: call(a, b, out=o, **kwargs)
+    elif how == "tuple":
+        fn = lambda: call(a, b, out=(o,), **kwargs)
+    else:
+        fn = lambda: call(a, b, o, **kwargs)
+    form = f"{variant}:out-{how}:{buf_kind(holder, bdt)}"
+    kclass = "out-" + holder
+    c0, c1, cb = cls_of(d0), cls_of(d1), cls_of(bdt)
+    case = {"ufunc": ufname, "form": form, "buffer": str(bdt), "d0": d0, "d1": d1, "u0": u0, "u1": u1}
+    res, exc, ws = observe(fn)
+    rec.count("calls:outbuf")
+    rec.reach(f"outbuf:{ufname}:{variant}:{how}:{holder}")
+    if exc is not None:
+        rec.count("evals:outbuf:refusal")
+        if kb.kind in "iu" and kb.itemsize == 1:
+            rec.note(f"refused:8bit:out-buffer:{holder}:{type(exc).__name__}")          # no 8-bit float exists
+            rec.ok(("refused-8bit", ufname, kclass, variant, how, bdt))
+            return
+        if (kb.kind != "c" and "c" in (np.dtype(d0).kind, np.dtype(d1).kind) and isinstance(exc, TypeError) and "cast" in str(exc).lower()):
+            rec.note(f"numpy-casting-refusal:{variant}:{buf_kind(holder, bdt)}")          # complex result, real buffer: NumPy's rule
+            return
+        if kb.kind in "iu" and holder == "nd":
+            # a bare integer ndarray belongs to the caller; refusing to retype it is the other licensed outcome
+            rec.note(f"refused:plain-int-buffer:{type(exc).__name__}:{str(exc)[:50]}")
+            rec.ok(("refused-plain-int-buffer", ufname, variant, how, bdt))
+            return
+        rec.violation(f"C17:{ufname}/{kclass}:raises:buf-{cb}:{type(exc).__name__}", f"np.{ufname} ({form}) of {d0} {u0} and {d1} {u1} into a {bdt} "
+                      f"buffer raised {type(exc).__name__}: {str(exc)[:120]}", case)
+        return
+    label = str(res.units) if hasattr(res, "units") else None
+    if label is None:
+        rec.violation(f"C17:{ufname}/{kclass}:unit-lost:buf-{cb}", f"np.{ufname} ({form}) of {d0} {u0} and {d1} {u1} returned {type(res).__name__} "
+                      f"without units", case)
+        return
+    if holder == "un" and str(o.units) != label:
+        rec.note(f"outbuf:buffer-label-differs-from-returned:{ufname}")
+    held = 0
+    if res is o:
+        rec.count("outbuf:returned-object-is-the-buffer")      # still two observables: judged through both names
+    for sub, what, obj in (("returned", " [returned object]", res), ("buffer", " [caller's buffer]", o)):
+        ok = judge_binary(rec, ufname, form, "out", d0, d1, u0, u1, av, bv, A, B, s0, s1, K, idx, obj, label, ws,
+                          bufdt=kb, kclass=kclass + ("" if sub == "returned" else "-buffer"), ctr="evals:outbuf:" + sub, what=what)
+        held += bool(ok)
+    # evaluated (not: held) per workload dimension - a dimension whose every evaluation failed has still been judged
+    for name in ("kind:" + buf_kind(holder, bdt), "pass:" + how, "variant:" + variant, "width:%d" % (8 * kb.itemsize)):
+        rec.count("evals:outbuf:" + name, 2)
+        rec.count("held:outbuf:" + name, held)
+
+
+def do_rareform(unyt, rec, ufname, form, d0, d1, u0, u1, av, bv, A, B, s0, s1, K):
+    """where= without out= (unmasked elements only are owed a value) and ufunc.at on the first operand"""
+    uf = getattr(np, ufname)
+    n = len(av)
+    a = unyt.unyt_array(make_array(d0, av), u0)
+    b = unyt.unyt_array(make_array(d1, bv), u1)
+    c0, c1 = cls_of(d0), cls_of(d1)
+    case = {"ufunc": ufname, "form": form, "d0": d0, "d1": d1, "u0": u0, "u1": u1}
+    if form == "where-noout":
+        mask = [k % 3 != 1 for k in range(n)]
+        idx = [(k, k) if m else None for k, m in enumerate(mask)]
+        res, exc, ws = observe(lambda: uf(a, b, where=np.array(mask)))
+        rec.count("calls:rareform")
+        rec.reach(f"rareform:{ufname}:{form}")
+        if exc is not None:
+            if np.dtype(d1).kind in "iu" and np.dtype(d1).itemsize == 1:
+                rec.violation(f"C17:binary/call:raises:second-operand-int8:{type(exc).__name__}", f"np.{ufname} ({form}) of {d0} {u0} and {d1} {u1} raised "
+                              f"{type(exc).__name__}: {str(exc)[:120]}", case)
+                return
+            rec.violation(f"C17:{ufname}/where:raises:{c0}+{c1}:{type(exc).__name__}", f"np.{ufname} ({form}) of {d0} {u0} and {d1} {u1} raised "
+                          f"{type(exc).__name__}: {str(exc)[:120]}", case)
+            return
+        label = str(res.units) if hasattr(res, "units") else ""
+        judge_binary(rec, ufname, form, "call", d0, d1, u0, u1, av, bv, A, B, s0, s1, K, idx, res, label, ws,
+                     kclass="where", ctr="evals:rareform:where-noout")
+        return
+    # ufunc.at: unbuffered in-place operation on the first operand at unique positions
+    sel = [k for k in range(n) if k % 2 == 0]
+    res, exc, ws = observe(lambda: (uf.at(a, sel, b[:len(sel)]), a)[1])
+    rec.count("calls:rareform")
+    rec.reach(f"rareform:{ufname}:{form}")
+    rec.count("evals:rareform:at")
+    if exc is not None:
+        # unyt does not implement ufunc.at (three inputs): a refusal cannot truncate anything
+        rec.note(f"refused:ufunc.at:{type(exc).__name__}")
+        rec.ok(("refused-at", ufname, d0, d1))
+        return
+    idx = [(k, sel.index(k)) if k in sel else ("keep", av[k] if not isinstance(av[k], complex) else av[k].real, s0) for k in range(n)]
+    label = str(res.units) if hasattr(res, "units") else ""
+    judge_binary(rec, ufname, form, "out", d0, d1, u0, u1, av, bv, A, B, s0, s1, K, idx, res, label, ws,
+                 bufdt=np.dtype(d0), kclass="at", ctr="evals:rareform:at-judged")
+
+
+def out_specs(tier, cplx, c):
+    """buffers for one (operand dtypes, unit pair, ufunc): (holder, buffer dtype).  Enumerated, not drawn: c is the running call
+    number, so every holder x width x pass x variant combination comes round whatever the seed"""
+    if cplx:
+        sp = [("nd", "c16"), ("un", "c8"), ("nd", "c8"), ("un", "c16")]
+        return sp if tier == "thorough" else [sp[c % 4], sp[(c + 1) % 4], ("nd", INTS[c % 8])]
+    if tier == "thorough":
+        return [(h, dt) for h in OUT_HOLDERS for dt in OUT_BUF_DT]
+    return [("nd", INTS[c % 8]), ("nd", INTS[(c // 8 + c + 3) % 8]), ("nd", FLOATS[c % 3]), ("un", INTS[(c + 5) % 8]),
+            ("un", OUT_BUF_DT[(c // 3) % 11])]
+
+
+def run_outforms(unyt, rec, d0, tier, r):
+    thorough = tier == "thorough"
+    units = BIN_UNITS[:3] if thorough else BIN_UNITS[:2]
+    n = 8 if thorough else 6
+    K = 16
+    k0 = np.dtype(d0).kind
+    c = INTS.index(d0) if d0 in INTS else len(d0)
+    for d1 in dts(tier):
+        k1 = np.dtype(d1).kind
+        for (u0, u1) in units:
+            s0, _ = X.unit_exact(u0)
+            s1, _ = X.unit_exact(u1)
+            av = bvals(d0, r, n, False)
+            bv = bvals(d1, r, n, True)
+            m = min(len(av), len(bv))
+            av, bv = av[:m], bv[:m]
+            A = [tuple(None if x is None else x * s0 for x in as_fr(v)) for v in av]
+            B = [tuple(None if x is None else x * s1 for x in as_fr(v)) for v in bv]
+            for uf in OUT_UFS:
+                cplx = "c" in (k0, k1)
+                if cplx and uf not in CPLX_OK:
+                    continue
+                for (holder, bdt) in out_specs(tier, cplx, c):
+                    c += 1
+                    do_outform(unyt, rec, uf, holder, bdt, OUT_PASS[c % 3], OUT_VARIANTS[c % 7], d0, d1, u0, u1, av, bv, A, B, s0, s1, K)
+                do_rareform(unyt, rec, uf, "where-noout" if c % 2 else "at", d0, d1, u0, u1, av, bv, A, B, s0, s1, K)
+                if thorough:
+                    do_rareform(unyt, rec, uf, "at" if c % 2 else "where-noout", d0, d1, u0, u1, av, bv, A, B, s0, s1, K)
+    rec.sample({"batch": "outbuf", "d0": d0, "ufuncs": OUT_UFS, "units": units, "buffers": OUT_BUF_DT, "holders": OUT_HOLDERS,
+                "pass": OUT_PASS, "variants": sorted(set(OUT_VARIANTS))})
 
 
 # ------------------------------------------------------------------ list coercion, setitem note
@@ -1539,6 +1808,13 @@ def extra(tier, seed, results):
                      "hist:evals:binary", "hist:evals:narrow->wide", "hist:evals:wide->narrow", "hist:evals:narrow->narrow",
                      "hist:evals:wide->wide", "hist:first-steps"]
     deciding += hist_deciding
+    # caller-owned out= buffers and rarely used call forms: every buffer kind, width, way of passing and variant must have been
+    # judged on both observables (returned object, caller's buffer)
+    deciding += ["evals:outbuf:returned", "evals:outbuf:buffer", "evals:outbuf:returned:out", "evals:outbuf:buffer:out", "evals:outbuf:refusal"]
+    deciding += ["evals:outbuf:kind:" + k for k in ("nd-int", "nd-float", "nd-complex", "un-int", "un-float", "un-complex")]
+    deciding += ["evals:outbuf:pass:" + k for k in OUT_PASS] + ["evals:outbuf:variant:" + k for k in sorted(set(OUT_VARIANTS))]
+    deciding += ["evals:outbuf:width:%d" % w for w in (16, 32, 64, 128)]
+    deciding += ["evals:rareform:where-noout", "evals:rareform:where-noout:call", "evals:rareform:at"]
     first_routes = HIST_FIRST_QUICK + (HIST_FIRST_MORE if tier == "thorough" else [])
     zero = [k for k in deciding if not counters.get(k)]
     zero += ["hist-first:" + fr for fr in first_routes if "hist-first:" + fr not in reached]
@@ -1550,7 +1826,10 @@ def extra(tier, seed, results):
     want_uf = [f"ufunc:{u}:ufunc" for u in ufs]
     unreached = [x for x in want_routes + want_uf + ["ctor-list"] if x not in reached]
     unreached += ["hist:ufunc:%s:ufunc" % u for u in HIST_UFS if "hist:ufunc:%s:ufunc" % u not in reached]
+    unreached += [f"outbuf:{u}:{v}:{h}" for u in OUT_UFS for v in sorted(set(OUT_VARIANTS)) for h in OUT_HOLDERS
+                  if not any(f"outbuf:{u}:{v}:{p}:{h}" in reached for p in OUT_PASS)]
     return {"sub_monitor_evaluations": {k: counters.get(k, 0) for k in deciding},
+            "outbuf": {k: v for k, v in counters.items() if k.startswith("outbuf:") or k.startswith("evals:rareform") or k == "calls:outbuf"},
             "history_control": {k[5:]: v for k, v in counters.items() if k.startswith("hist:control") or k.startswith("hist:violations")},
             "entry_point_calls": {k[4:]: v for k, v in counters.items() if k.startswith("tap:")},
             "unreached": unreached,
